@@ -15,6 +15,7 @@ from typing import Dict, List, Optional, Set
 from .. import flow
 from ..cfg import cfg_of
 from ..model import AnchorError, Class, Func, UNKNOWN, UnknownIdiom, dotted, func_owner_class, short, walk_no_nested
+from .c15_helpers import Provenance
 from .c16_helpers import NONE, Lin, LinExec, PathFacts, seek_position
 from .common import implied, is_self_attr, single, walk_self
 
@@ -74,9 +75,21 @@ def r1_containment(run):
         if is_self_attr(a, FALLBACK):
             run.ok('the configured fallback file is opened as configured (ownership of the attribute is R2)', f.loc(c), c)
             continue
-        if not isinstance(a, ast.Name):
-            raise UnknownIdiom('%s: sink argument %s is not a local' % (CALL, short(a)))
         facts = pf.IN[n.id]
+        if not isinstance(a, ast.Name):
+            # an expression over the local the lemma is proved for: read what it does to the text
+            cands = sorted({x.id for x in walk_self(a) if isinstance(x, ast.Name) and any(x.id in fc[1:] for fc in facts)})
+            if len(cands) != 1:
+                raise UnknownIdiom('%s: sink argument %s is not a local' % (CALL, short(a)))
+            o = Provenance(p, f, None, root_local=cands[0]).classify(a, n.id)
+            if not o.derived:
+                raise UnknownIdiom('%s: sink argument %s is not a local' % (CALL, short(a)))
+            if o.xforms:
+                run.fail('the path handed to _open_file is the very value the containment lemma was proved for (no transformation between the guards and the open)',
+                         f, c, witness=o.describe() + ['the guards validated %s' % cands[0]],
+                         runtime_witness='the containment checks validate one string and another one is opened: a different file (or none) is served')
+                continue
+            a = ast.copy_location(ast.Name(id=cands[0], ctx=ast.Load()), a)
         ok, why = pf.safe(facts, a.id)
         if not ok:
             related = {a.id} | {x[2] for x in facts if x[0] == 'JOIN' and x[1] == a.id}
@@ -483,6 +496,64 @@ def r4_status(run):
         run.check(n.id not in flow.reachable(cfg, after), 'no other status is stored after a stream was computed', f, n.ast)
 
 
+# ---------------------------------------------------------------------------
+# R8
+# ---------------------------------------------------------------------------
+
+PATH_KEYWORDS = ('file', 'path', 'name', 'filename')
+
+
+def r8_opened_is_proved(run):
+    """Inside _open_file the string handed to the file-opening primitive is
+    the function's parameter unchanged: the containment lemma (R1) is proved
+    for the caller's argument, and "the requested file's bytes" means the file
+    of exactly that name.  os.fspath / str / a plain copy are the identity;
+    any other step (Unicode or path normalisation, case folding, strip,
+    slicing, joins, ...) is a different name."""
+    p = run.project
+    m = p.module(MOD)
+    f = p.func(OPEN)
+    a = f.node.args
+    params = f.params()
+    if len(params) != 1 or a.vararg or a.kwarg or a.kwonlyargs:
+        raise UnknownIdiom('%s: signature %s (one path parameter expected)' % (OPEN, params))
+    prov = Provenance(p, f, params[0])
+    run.use_cfg(prov.cfg)
+    found = 0
+    for n in walk_no_nested(f.node):
+        if not isinstance(n, ast.Call):
+            continue
+        q = p.resolve_expr(m, n.func, f)
+        method = isinstance(n.func, ast.Attribute) and n.func.attr in OPEN_METHODS and q not in OPEN_PRIMS and not (isinstance(q, str) and q.startswith('falcon.'))
+        if q not in OPEN_PRIMS and not method:
+            continue
+        if q in OPEN_PRIMS:
+            if n.args and not isinstance(n.args[0], ast.Starred):
+                path = n.args[0]
+            else:
+                kws = [k.value for k in n.keywords if k.arg in PATH_KEYWORDS]
+                if len(kws) != 1:
+                    raise UnknownIdiom('%s: cannot find the path operand of %s' % (OPEN, short(n)))
+                path = kws[0]
+        else:
+            path = n.func.value
+        nid = prov.rd.cfg_node(n)
+        if nid is None:
+            raise UnknownIdiom('%s: %s is not on a live path' % (OPEN, short(n)))
+        found += 1
+        o = prov.classify(path, nid)
+        rw = ('a file whose on-disk name differs from its transformed form (not NFC, upper-case, trailing blank, ...) is requested by its exact name: '
+              "another file's bytes or a 404")
+        if not o.derived:
+            run.fail('_open_file opens the path it was given', f, n, witness=['%s does not derive from the parameter %s' % (short(path), params[0])], runtime_witness=rw)
+            continue
+        cons = o.xforms[0][1] if o.xforms else n
+        run.check(not o.xforms, '_open_file opens exactly the string it was given - the one the containment checks validated (no transformation before the open)',
+                  f, cons, where=f.loc(cons), witness=(o.describe() + ['reaches %s' % short(n)]) if o.xforms else None, runtime_witness=rw)
+    if not found:
+        raise AnchorError('no file-opening primitive found in %s' % OPEN)
+
+
 def check(run):
     run.assume('POSIX path semantics: os.path.sep == "/"; os.path.normpath leaves ".." only as leading components; '
                'os.path.join(D, x) == D + "/" + x for relative x (trusted base of the containment lemma)')
@@ -503,3 +574,4 @@ def check(run):
 
     run.rule('R7', _c09.localtime_sweep, 'HTTP dates are read and written as UTC, never through the process-local zone (shared with C09 R4)', floor=1)
     run.rule('R6', _c02.r7_static_prefix, 'static route matching uses only the normalised prefix (shared with C02 R7)', floor=1)
+    run.rule('R8', r8_opened_is_proved, 'the string opened inside _open_file is its parameter unchanged (the value the containment lemma was proved for)', floor=1)
